@@ -155,6 +155,8 @@ class TorchCalls(TorchOps):
         if fn == "abs":
             t = tv_of(args[0])
             return t.but(poly=None) if t is not None else self.unk("abs", node)
+        if fn == "float" and args and isinstance(args[0], Const) and isinstance(args[0].v, str):
+            return TV(kind="pyfloat", dtype="Py", note="float-literal:" + args[0].v)
         if fn in ("float", "int", "bool", "round"):
             t = tv_of(args[0]) if args else None
             if t is None:
@@ -396,7 +398,11 @@ class TorchCalls(TorchOps):
             return recv
         t = tv_of(recv)
         if t is not None:
-            return self.tensor_method(t, name, args, kwargs, node, env)
+            r = self.tensor_method(t, name, args, kwargs, node, env)
+            if name.endswith("_") and not name.startswith("_") and isinstance(r, TV) and isinstance(node, ast.Call) and isinstance(node.func, ast.Attribute) \
+                    and isinstance(node.func.value, ast.Name) and env is not None:
+                self.interp.rebind(node.func.value, r, env, node)  # in-place method: the receiver now holds the updated value
+            return r
         if isinstance(recv, Unk):
             return recv
         return self.unk(f"method {name} of {type(recv).__name__}", node)
